@@ -1,5 +1,77 @@
-import Asn1Verif.Base.Text
-/- line protocol, stream `resolve` — not implemented yet -/
+import Driver.ParseStream
+/-
+  line protocol, stream `resolve` (front end: several modules through `tryResolveAll`)
+
+    resolve mods  <hex1>,<hex2>,…          → ok <dump1> <dump2> … | err <class> | abort
+    resolve subst <mods A> <mods B> [...]  → <answer for A> || <answer for B>
+    resolve perm  <hex1>,<hex2>,… [...]    → the answer for every load order (dumps put back into
+                                              request order), joined by ` || `
+
+  `abort` = the import chase of the model ran out of fuel = the real resolver recurses until the
+  stack overflows.  Texts are tokenized as in the stream `parse`.
+-/
 namespace Driver.ResolveStream
-def handle (_args : List String) : String := "bad-op"
+open Asn1Verif Asn1Verif.Front.Syn Asn1Verif.Text Driver.ParseStream
+
+def textsOf (arg : String) : Option (List String) :=
+  if arg = "-" then some [] else (arg.splitOn ",").mapM decodeText
+
+def parseAll : List String → List Nat → Except String (List UModule)
+  | _, [] => .ok []
+  | texts, i :: rest =>
+    match parseModule (simpleTokenize (texts.getD i "")) with
+    | .error e => .error ("err parse:" ++ toString i ++ ":" ++ errStr e)
+    | .ok m => do
+      let ms ← parseAll texts rest
+      pure (m :: ms)
+
+/-- position of `i` in the load order -/
+def posOf (order : List Nat) (i : Nat) : Nat := (order.idxOf i)
+
+def resolveInOrder (texts : List String) (order : List Nat) : String :=
+  if texts.any (fun t => !inTokenDomain t) then "skip" else
+  match parseAll texts order with
+  | .error s => s
+  | .ok ms =>
+    match tryResolveAll ms with
+    | .error .fuel => "abort"
+    | .error e => "err " ++ errStr e
+    | .ok rs =>
+      let dumps := (List.range texts.length).map fun i =>
+        match rs[posOf order i]? with
+        | some r => dumpR r
+        | none => ""
+      String.intercalate " " ("ok" :: dumps)
+
+def insertEverywhere (x : Nat) : List Nat → List (List Nat)
+  | [] => [[x]]
+  | y :: ys => (x :: y :: ys) :: (insertEverywhere x ys).map (y :: ·)
+
+/-- all permutations of `0..n-1` in lexicographic order -/
+def permsLex : Nat → List Nat → List (List Nat)
+  | 0, _ => [[]]
+  | fuel + 1, avail =>
+    if avail.isEmpty then [[]] else
+    avail.flatMap fun i => (permsLex fuel (avail.filter (· ≠ i))).map (i :: ·)
+
+def handle (args : List String) : String :=
+  match args with
+  | "mods" :: ms :: _ =>
+    match textsOf ms with
+    | none => "bad-op"
+    | some texts => resolveInOrder texts (List.range texts.length)
+  | "subst" :: a :: b :: _ =>
+    match textsOf a, textsOf b with
+    | some ta, some tb =>
+      resolveInOrder ta (List.range ta.length) ++ " || " ++ resolveInOrder tb (List.range tb.length)
+    | _, _ => "bad-op"
+  | "perm" :: ms :: _ =>
+    match textsOf ms with
+    | none => "bad-op"
+    | some texts =>
+      if texts.length > 4 then "bad-op" else
+      String.intercalate " || "
+        ((permsLex texts.length (List.range texts.length)).map (resolveInOrder texts))
+  | _ => "bad-op"
+
 end Driver.ResolveStream
